@@ -16,13 +16,13 @@ def run(R):
     algs = [(a, None) for a in hc.FIXED] + [("blake2b", 64), ("blake2b", 32), ("blake2b", 1), ("blake2s", 32), ("blake2s", 16)]
     for alg, outlen in algs:
         b = hc.block_of(alg)
-        kls = [0, 1, b - 1, b, b + 1, 2 * b + 7, R.rng.randrange(2, b - 1)]
+        kls = [0, 1, 2, b - 2, b - 1, b, b + 1, b + 2, 2 * b - 1, 2 * b, 2 * b + 1, 2 * b + 7, 3 * b + 1] + [R.rng.randrange(2, 2 * b) for _ in range(3)]
         if not thorough:
             # boundary key lengths always; the rest rotates with the seed
             kls = [b - 1, b, b + 1] + [R.rng.choice([0, 1, 2 * b + 7, R.rng.randrange(2, b - 1)])]
         for kl in kls:
             key = vlib.prng_bytes(R.seed, "c08key/%s/%d" % (alg, kl), kl)
-            mls = [0, 1, b - 1, b, b + 1, 2 * b + 3] if thorough else [R.rng.choice([0, 1, b - 1, b, b + 1, 2 * b + 3])]
+            mls = [0, 1, b - 1, b, b + 1, 2 * b - 1, 2 * b, 2 * b + 3, 5 * b] if thorough else [R.rng.choice([0, 1, b - 1, b, b + 1, 2 * b + 3])]
             for ml in mls:
                 msg = vlib.prng_bytes(R.seed, "c08msg/%s/%d/%d" % (alg, kl, ml), ml)
                 cut = sorted({R.rng.randrange(0, ml + 1) for _ in range(2)}) if ml else []
@@ -49,8 +49,24 @@ def run(R):
             h["outlen"] = outlen
         hs.append(h)
         R.count((alg, outlen, "reset-reuse"))
+    # the reuse matrix of the Hmac object (MacObj.ReuseShape: input{0,2} result? reset input{0,2} result, chunk lengths incl. the empty chunk):
+    # all of it for HMAC-SHA256, a seeded part for three other block sizes
+    from props import c09
+    nre = 0
+    for alg, b, frac in (("sha256", 64, 1.0), ("sha512", 128, 0.1 if not thorough else 1.0), ("sha3_256", 136, 0.05 if not thorough else 0.5), ("blake2s", 64, 0.05 if not thorough else 0.5)):
+        behs = c09.gen_reuse(R, "hmac", b, [0, 1, b - 1, b, b + 1])
+        base = {"cls": "mac", "mac": "hmac", "alg": alg, "key": vlib.prng_bytes(R.seed, "c08re/" + alg, 24)}
+        if alg == "blake2s":
+            base["outlen"] = 32
+        for bh in behs:
+            if frac < 1 and R.rng.random() >= frac:
+                continue
+            hs.append(mc.concretise(R, bh, base, "c08re"))
+            nre += 1
+            R.count((alg, "reuse", hc.signature(bh)))
+    R.extra["reuse_matrix_histories"] = nre
     R.rule = ("[Hmac::new(digest, key), output_bytes, input x (1..3 seeded cuts), result|raw_result] per (digest, key length, message length): 16 fixed digests + BLAKE2b-64/32/1 + BLAKE2s-32/16; "
-              "key lengths " + ("{0,1,B-1,B,B+1,2B+7,seeded}" if thorough else "{B-1,B,B+1} + one seeded of {0,1,2B+7,random}") + "; message lengths from {0,1,B-1,B,B+1,2B+3}")
+              "key lengths " + ("{0,1,2,B-2..B+2,2B-1..2B+1,2B+7,3B+1,3 seeded}" if thorough else "{B-1,B,B+1} + one seeded of {0,1,2B+7,random}") + "; message lengths from {0,1,B-1,B,B+1,2B+3}")
     res = R.conform("TraceMac", hs, cost=mc.cost_mac, describe=mc.describe, timeout=3000 if thorough else 900)
     for r in res["records"][:2] + res["records"][-2:]:
         R.sample({"digest": r["alg"], "outlen": r.get("outlen"), "keylen": len(r["key"]), "inputs": [len(e.get("data", [])) for e in r["ev"] if e["op"] == "input"],
